@@ -51,10 +51,8 @@ func GenConds(t *rapid.T, label string, rich bool, max int) []Cond {
 			if rich {
 				pool = []string{"EA", "EB", "EC", "TV1", "TP1", "temp"}
 			}
-			k := 1
-			if rich {
-				k = rapid.IntRange(1, 2).Draw(t, label+"ErrsN")
-			}
+			// several targets in one call is its own code path (one closure per target)
+			k := rapid.IntRange(1, 3).Draw(t, label+"ErrsN")
 			for j := 0; j < k; j++ {
 				c.Errs = append(c.Errs, rapid.SampledFrom(pool).Draw(t, label+"Err"))
 			}
